@@ -939,3 +939,75 @@ def gen_sole_survivor(rng, profile):
         S.append(P.step(0, "PULL", r1))
     S.append(P.step(0, "CANCEL", r1))
     return b.merge()
+
+
+REPLACED_PROGRAMS = ['"/sim/0/swap.o" dwopen unit root name', '"/sim/0/swap.o" dwopen entry offset', '"/sim/0/swap.o" dwopen entry name',
+                     '[ "/sim/0/swap.o" dwopen entry ] length', '"/sim/0/swap.o" dwopen symbol name', '"/sim/0/swap.o" dwopen name',
+                     '"/sim/0/swap.o" dwopen entry ?TAG_subprogram name', '"/sim/0/swap.o" dwopen unit entry ?root @AT_producer',
+                     '("/sim/0/swap.o", "/sim/0/swap.o") dwopen unit root name', '"/sim/0/swap.o" dwopen raw unit offset',
+                     '"/sim/0/swap.o" dwopen entry ?root "%s"', '"/sim/0/swap.o" dwopen [entry ?TAG_base_type name]']
+REPLACED_ON_INPUT = ['dwopen unit root name', 'dwopen entry offset', '[dwopen entry] length', 'dup dwopen entry name', 'dwopen symbol label']
+SWAP_FILES = ["a1.out", "twocus", "nullptr.o", "bitcount.o", "y.o", "typedef.o", "enum.o", "nontrivial-types.o", "aranges.o",
+              "defaulted.o", "char_16_32.o", "duplicate-const", "k1.o", "k2.o"]
+
+
+def gen_replaced_file(rng, profile):
+    """The file behind a path is replaced between executions (the simulated
+    disk's answer to a rebuild while a long-lived process keeps its compiled
+    queries): a query that opens the file by name must see what a fresh
+    parse-and-run sees -- the new file -- however often it ran before.  No
+    result set is alive while the file changes."""
+    b = Builder(rng, profile)
+    plan = b.plan
+    common_knobs(rng, plan)
+    if profile != "C13":
+        plan["knobs"]["leakcheck"] = 0
+    plan["knobs"]["deny_mmap"] = 0
+    fa, fb = rng.sample(SWAP_FILES, 2)
+
+    def backing(f):
+        p = os.path.join(gen.REPO, "tests", f)
+        return p if os.path.exists(p) else os.path.join(FIX, "elf", f)
+    plan["files"].append({"vpath": "/sim/0/swap.o", "backing": backing(fa), "errno": 0})
+    S = b.setup
+    on_input = rng.random() < 0.35
+    i0 = b.i()
+    if on_input:
+        text = rng.choice(REPLACED_ON_INPUT)
+        S.append(P.step(0, "MKIN", i0, "S:" + P.hexenc("/sim/0/swap.o")))
+    else:
+        text = rng.choice(REPLACED_PROGRAMS)
+        S.append(P.step(0, "MKIN", i0))
+    q = b.q()
+    S.append(P.step(0, "PARSE", q, b.prog(text, 0)))
+    # a plain OPEN of the same path as well: values opened before and after
+    v0 = b.v()
+    if rng.random() < 0.5:
+        S.append(P.step(0, "OPEN", v0, P.hexenc("/sim/0/swap.o"), "cooked"))
+
+    def run(qq, n):
+        r = b.res()
+        st = [P.step(0, "EXEC", r, qq, i0)]
+        for _ in range(n):
+            st.append(P.step(0, "PULL", r))
+        st.append(P.step(0, "CANCEL", r))
+        return st
+    for _ in range(rng.choice([1, 1, 2])):
+        S += run(q, rng.choice([PULL_CAP, PULL_CAP, 1, 2]))
+    for k in range(rng.choice([1, 1, 2])):
+        S.append(P.step(0, "REMAP", P.hexenc("/sim/0/swap.o"), P.hexenc(backing(fb if k == 0 else fa))))
+        S += run(q, PULL_CAP)
+        if rng.random() < 0.5:
+            q2 = b.q()
+            S.append(P.step(0, "PARSE", q2, b.prog(text, 0)))
+            S += run(q2, PULL_CAP)
+        if rng.random() < 0.4:
+            v1 = b.v()
+            i1, q3 = b.i(), b.q()
+            S += [P.step(0, "OPEN", v1, P.hexenc("/sim/0/swap.o"), "cooked"), P.step(0, "MKIN", i1, "V:%d" % v1),
+                  P.step(0, "PARSE", q3, b.prog(rng.choice(["unit root name", "entry offset", "[entry] length"]), 0))]
+            r = b.res()
+            S.append(P.step(0, "EXEC", r, q3, i1))
+            S += [P.step(0, "PULL", r) for _ in range(PULL_CAP)]
+            S.append(P.step(0, "CANCEL", r))
+    return b.merge()
